@@ -6,15 +6,19 @@ Bounded exhaustive product, executed on the real parser:
   target inside a class group, x.init_args.k of a class-typed argument incl. class changes, every item of a
   List[class], the documentation's Trainer/Logger group, plain / class-group targets whose option has several
   spellings - aliases and their abbreviations, the --t+ of list types, the --no_t of yes/no flags - with the own
-  option written in every spelling; each bare and inside one / two levels of subcommands)
+  option written in every spelling, sources whose type admits None - an Optional[int] argument, the whole of an
+  Optional[class] argument, an Optional parameter below a class argument - with every channel writing its value or
+  null; each bare and inside one / two levels of subcommands)
   x which channels (defaults, environment, --config, argv, parse_object, parse_string, parse_env) supply every
     source leaf - all subsets per leaf, a different value per channel
   x how the class / the list of classes is configured (channel, class, class change)
   x how the target itself is additionally supplied (own option, config key, environment, object key nested and
     dotted, enclosing group JSON, enclosing class spec)
 
-and, on one fixed parser layout, every ordered set of up to two (thorough: three) links out of a catalogue of 20
-(chains, double targets, links onto their own source, links whose keys are nested in one another).
+and, on one fixed parser layout, every ordered set of up to two (thorough: three) links out of a catalogue of 22
+(chains, double targets, links onto their own source, links whose keys are nested in one another), plus every
+ordered set of three (thorough: four) distinct links whose order of application is constrained by at least two
+(three) dependencies through nested keys - dependency chains and fans in every declaration order.
 
 Oracle after every parse: acceptance as the statement fixes it (option of a plain target rejected; target never
 required); cfg[target] == f(final source values) for every link, every list item; dump() (yaml, json; also
@@ -31,7 +35,8 @@ META = {
     "level": "exploration",
     "engine": "bounded exhaustive product enumeration on the real parser (mc/checks/c15.py, c15_shapes.py)",
     "technique": "exhaustive product of link shapes x per-source channel subsets x class configurations x ways of "
-    "supplying the target, plus all ordered link sets of size <= 2/3 from a catalogue; reference model f(final sources), "
+    "supplying the target, plus all ordered link sets of size <= 2/3 from a catalogue and all order-constrained sets of "
+    "size 3/4; reference model f(final sources), "
     "structural dump inspection, differential re-parse",
     "level_text": "Every member of the stated finite product is executed on the unmodified library: each case builds "
     "fresh parsers, feeds every source through the chosen channels with channel-identifying values, and the target "
@@ -42,7 +47,8 @@ META = {
     "level_note": "Trusted: the fixture compute functions (injective integer arithmetic), PyYAML's safe_load as the "
     "independent reader of dumps, the rendering of a case into argv / environment / config text (guarded: every "
     "channel must be observed to win for every shape family). Bounds: one to two source leaves per link, int / "
-    "Dict[str,int] / class-spec values, subcommand depth <= 2, link sets of size <= 2 (thorough: 3), apply_on='parse' "
+    "Dict[str,int] / class-spec / None values, subcommand depth <= 2, link sets of size <= 2 (thorough: 3) and "
+    "order-constrained ones of size 3 (thorough: 4), apply_on='parse' "
     "only (instantiation links are C16).",
     "design_ref": "DESIGN.md §5 C15",
 }
@@ -63,7 +69,7 @@ DOC_CH = {"object": "obj", "string": "str", "object-envsel": "obj"}
 HAS_K = {"Base": True, "Derived": True, "DefK": True, "NoK": False}
 
 LEAVES = {"plain": ["s"], "two": ["s1", "s2"], "grp": ["data.n", "data.m"], "cgroup": ["data.n", "data.m"],
-          "init": ["s"], "list": ["s"], "holder": ["h.save"], "spell": ["s"]}
+          "init": ["s"], "list": ["s"], "holder": ["h.save"], "spell": ["s"], "null": ["s"]}
 # targets whose option has several spellings (aliases + abbreviations, --t+ of list types, --no_t of yes/no flags)
 SPELL_KINDS = [("alias", None), ("list", "flist"), ("optlist", None), ("yesno", "fnot"), ("cglist", None)]
 
@@ -90,13 +96,50 @@ def variants(quick):
                 out.append(("grp", {"t": t, "fn": fn, "wrap": wrap}))
         for tk, fn in SPELL_KINDS:
             out.append(("spell", {"tk": tk, "fn": fn, "wrap": wrap}))
+        for nk, fn, dn in null_kinds(quick, wrap) if wrap != "subsub" else ():
+            out.append(("null", {"nk": nk, "fn": fn, "dn": dn, "wrap": wrap}))
     out.append(("plain", {"fn": "f1", "t": "req", "wrap": "subsub"})) if quick else None
     out.append(("plain", {"fn": None, "t": "req", "wrap": None, "sreq": True}))
     out.append(("plain", {"fn": "fbad", "t": "req", "wrap": None}))
     out.append(("plain", {"fn": "fbad", "t": "def", "wrap": "sub"}))
     for _, o in out:
-        for k in [k for k, v in o.items() if v is None]:
+        for k in [k for k, v in o.items() if v is None or v is False]:
             del o[k]
+    return out
+
+
+def null_kinds(quick, wrap=None):
+    """Family `null` (sources whose final value may be None): (kind, compute function, default is None)."""
+    if wrap:
+        # inside a subcommand every kind once (the other default / function is left to the bare shape), both tiers
+        return [("plain", None, False), ("cls", "fspec", True), ("clsinit", None, True), ("c2i", "fopt", False)]
+    if quick:
+        # every kind with a None and with a non-None default; the compute function alternates
+        return [("plain", None, True), ("plain", "fopt", False), ("cls", "fspec", True), ("cls", "fspec", False),
+                ("clsinit", "fopt", True), ("clsinit", None, False), ("c2i", None, True), ("c2i", None, False)]
+    out = [(nk, fn, dn) for nk in ("plain", "clsinit") for fn in (None, "fopt") for dn in (True, False)]
+    out += [("cls", "fspec", dn) for dn in (True, False)]
+    out += [("c2i", fn, dn) for fn in (None, "fopt") for dn in (True, False)]
+    return out
+
+
+def null_assignments(entry, quick):
+    """Family `null`: per channel of the entry point absent / its value / null (token "<channel>:null")."""
+    chs = ENTRY_CH[entry]
+    if entry == "print":
+        return [[], ["argv:null"], ["cfg:null"], ["cfg", "argv:null"], ["cfg:null", "argv"]]
+    if quick and len(chs) == 3:
+        # 9 of the 27: nothing, null through each single channel, null over the value of the next lower channel,
+        # a value over the null of a lower channel, all three values
+        return [[], ["env:null"], ["cfg:null"], ["argv:null"], ["env", "cfg:null"], ["cfg", "argv:null"],
+                ["env:null", "argv"], ["cfg:null", "argv"], ["env", "cfg", "argv"]]
+    if quick and len(chs) == 2:
+        # 6 of the 9
+        a, b = chs
+        return [[], [a + ":null"], [b + ":null"], [a, b + ":null"], [a + ":null", b], [a, b]]
+    out = []
+    for combo in itertools.product(("", "v", "n"), repeat=len(chs)):
+        out.append([ch + (":null" if c == "n" else "") for ch, c in zip(chs, combo) if c])
     return out
 
 
@@ -203,6 +246,11 @@ def source_assignments(shape, entry, o, quick):
         leaves = ["data.n"]
     chs = ENTRY_CH[entry]
     per_leaf = subsets(chs) if entry != "print" else [[], ["argv"], ["cfg"]]
+    if shape == "null":
+        from mc.checks.c15_shapes import NULL_LEAF
+
+        leaves = [NULL_LEAF[o["nk"]]]
+        per_leaf = null_assignments(entry, quick)
     if quick and entry == "args" and len(leaves) == 2:
         # two leaves: no / each single / all channels per leaf (25 combinations instead of 64)
         per_leaf = [[], ["env"], ["cfg"], ["argv"], ["env", "cfg", "argv"]]
@@ -217,8 +265,9 @@ def source_assignments(shape, entry, o, quick):
     out = []
     for combo in itertools.product(per_leaf, repeat=len(leaves)):
         src = {leaf: c for leaf, c in zip(leaves, combo) if c}
-        uses_cfg = any("cfg" in c for c in combo)
-        both = any("cfg" in c and "argv" in c for c in combo)
+        combo_ch = [[tok.split(":")[0] for tok in c] for c in combo]
+        uses_cfg = any("cfg" in c for c in combo_ch)
+        both = any("cfg" in c and "argv" in c for c in combo_ch)
         cposs = ["root"] if entry == "args-envsel" else ["first"]
         if entry == "args":
             if both or (not quick and uses_cfg):
@@ -228,6 +277,20 @@ def source_assignments(shape, entry, o, quick):
         for cpos in cposs:
             out.append((src, cpos))
     return out
+
+
+def null_c2i_targets(entry):
+    """Family `null`, target x.init_args.k (class OptK from the default / named by a channel): (steps, target supply)."""
+    if entry == "args":
+        return [([], "none"), ([], "option"), ([], "option_init"), ([["argv", "OptK"]], "spec"), ([["cfg", "OptK"]], "cfg"),
+                ([["env", "OptK"]], "spec_env")]
+    if entry in DOC_CH:
+        return [([], "none"), ([[DOC_CH[entry], "OptK"]], DOC_CH[entry])]
+    if entry == "env":
+        return [([], "none"), ([["env", "OptK"]], "spec_env")]
+    if entry == "args-envsel":
+        return [([], "none"), ([["cfg", "OptK"]], "cfg")]
+    return [([], "none")]
 
 
 def enumerate_single(quick):
@@ -247,10 +310,23 @@ def enumerate_single(quick):
                     base["serial"] = serial
                 if reparse:
                     base["reparse"] = reparse
-                if shape in ("plain", "two", "grp", "cgroup", "spell"):
+                if shape == "null":
+                    # dump() leaves None-valued entries out by default (skip_none=True), which is lossy on its own
+                    # account: the faithful dump (skip_none=False) is the one inspected and re-parsed; thorough also
+                    # inspects the default yaml / json dumps
+                    base["serial"] = ["yaml+nulls"] if quick else ["yaml", "json", "yaml+nulls"]
+                    base["reparse"] = ["yaml+nulls"]
+                if shape == "null" and o["nk"] == "c2i":
+                    for steps, tgt in null_c2i_targets(entry):
+                        cases.append(dict(base, one={"x": steps}, tgt=tgt))
+                elif shape in ("plain", "two", "grp", "cgroup", "spell", "null"):
                     tgts = plain_targets(shape, o, entry)
                     if o.get("fn") == "fbad":
                         tgts = ["none"]
+                    if quick and shape == "null":
+                        # the value axis (value / null per channel) multiplies this family: quick keeps one supply of
+                        # the target per channel kind (own option, config / object / string key, environment on parse_env)
+                        tgts = [t for t in tgts if t in ("none", "option", "cfg", "obj", "str") or (t == "env" and entry == "env")]
                     for tgt in tgts:
                         if tgt == "cfg" and entry == "args" and cpos == "root" and not o.get("wrap"):
                             continue
@@ -310,13 +386,40 @@ def enumerate_single(quick):
 
 
 def enumerate_linksets(quick):
-    from mc.checks.c15_shapes import LINKS
+    """Every single link and every ordered pair of the catalogue; every ordered triple (quadruple) of distinct links
+    in which the order of application is constrained by at least two (three) dependencies through nested keys and
+    that must not be refused outright - dependency chains and fans of three (four) links in every declaration order;
+    thorough: every ordered triple whatsoever."""
+    from mc.checks.c15_shapes import LINKS, MUST_REFUSE, UNSATISFIABLE, dependencies, relations
 
     links = [[list(s), f, t] for s, f, t in LINKS]
     sets = [[a] for a in links] + [[a, b] for a in links for b in links]
-    if not quick:
-        sets += [[a, b, c] for a in links for b in links for c in links]
-    return [{"k": "linkset", "links": s} for s in sets]
+
+    def constrained(size):
+        out = []
+        for combo in itertools.permutations(links, size):
+            if len(dependencies(combo)) < size - 1:
+                continue
+            if any(r in MUST_REFUSE + UNSATISFIABLE for r in relations(list(combo))):
+                continue
+            out.append(list(combo))
+        return out
+
+    out = [{"k": "linkset", "links": s} for s in sets]
+    if quick:
+        # the order of application does not depend on the channel: of the four inputs (defaults, argv, config,
+        # object) the triples get the first two in the quick tier
+        out += [{"k": "linkset", "links": s, "inputs": [0, 1]} for s in constrained(3)]
+    else:
+        out += [{"k": "linkset", "links": [a, b, c]} for a in links for b in links for c in links]
+        out += [{"k": "linkset", "links": s} for s in constrained(4)]
+    return out
+
+
+def _catalogue_size():
+    from mc.checks.c15_shapes import LINKS
+
+    return len(LINKS)
 
 
 def case_size(case):
@@ -349,6 +452,7 @@ def explore(ctx):
     n = {"cases": 0, "accepted": 0, "rejected": 0, "rejected_as_required": 0, "judged": 0, "ignored": 0, "dumps": 0,
          "reparsed": 0, "refused_sets": 0, "accepted_sets": 0, "linkset_parses": 0, "print": 0}
     winners = {}
+    null_winners = {}
     spelled = {}
     shapes_accepted = {}
     relations = {}
@@ -363,6 +467,8 @@ def explore(ctx):
             n["accepted_sets"] += obs.get("accepted_set", 0)
             n["linkset_parses"] += obs.get("parses", 0)
             relations[obs["relation"]] = relations.get(obs["relation"], 0) + 1
+            if len(case["links"]) >= 3 and obs.get("accepted_set"):
+                n["accepted_sets_3plus"] = n.get("accepted_sets_3plus", 0) + 1
             transitions += len(case["links"]) + obs.get("parses", 0) + obs.get("dumps", 0) + obs.get("reparsed", 0)
             n["judged"] += obs.get("judged", 0)
             nontrivial += 1 if len(case["links"]) > 1 else 0
@@ -380,6 +486,9 @@ def explore(ctx):
             shapes_accepted[fam] = shapes_accepted.get(fam, 0) + 1
         for w in obs.get("winners", ()):
             winners.setdefault(fam, set()).add(w)
+        for nk, ch in obs.get("null_final", ()):
+            null_winners.setdefault(nk, set()).add(ch)
+            n["null_final"] = n.get("null_final", 0) + 1
         # non-trivial: the final value of some source does not come from the default, or the target itself was supplied
         if case.get("tgt", "none") != "none" or any(w != "default" for w in obs.get("winners", ())):
             nontrivial += 1
@@ -401,8 +510,9 @@ def explore(ctx):
             "link_shapes": len(variants(quick)),
             "single_cases": len(singles),
             "link_sets": len(linksets),
-            "link_set_size": 2 if quick else 3,
-            "link_catalogue": 20,
+            "link_set_size": "2; 3 where the order of application is constrained by >= 2 nested-key dependencies" if quick
+            else "3; 4 where the order of application is constrained by >= 3 nested-key dependencies",
+            "link_catalogue": _catalogue_size(),
             "subcommand_depth": 2,
             "source_leaves_per_link": 2,
             "channels": ENTRY_CH,
@@ -411,11 +521,13 @@ def explore(ctx):
         counts=n,
         link_set_relations=relations,
         channels_seen_winning={k: sorted(v) for k, v in sorted(winners.items())},
+        channels_seen_setting_a_source_to_none={k: sorted(v) for k, v in sorted(null_winners.items())},
         accepted_per_shape=shapes_accepted,
         target_option_spellings=spelled,
     )
     ctx.assume("final source values are read from the parsed configuration itself (precedence between channels is C04)")
     ctx.assume("a link whose source lies below a class argument that is not configured is skipped by design (not judged)")
+    need = {"default", "env", "cfg", "argv", "obj", "str"}
     ctx.require(n["cases"] == len(cases), "every enumerated case was executed")
     ctx.require(n["accepted"] > 1000 and n["rejected_as_required"] > 100, "accepted parses and required rejections both occur")
     ctx.require(n["judged"] > n["accepted"] * 0.8, "the invariant was judged on (nearly) every accepted parse")
@@ -423,10 +535,16 @@ def explore(ctx):
     ctx.require(n["reparsed"] > 1000, "dumps were re-parsed")
     ctx.require(n["print"] > 20, "--print_config route exercised")
     ctx.require(n["refused_sets"] > 50 and n["accepted_sets"] > 50, "link sets both refused and accepted")
-    ctx.require(all(r in relations for r in ("double", "chain", "self", "independent", "prefix-chain")), "every link-set relation class occurs")
+    ctx.require(all(r in relations for r in ("double", "chain", "self", "independent", "prefix-chain", "prefix-chain-wrong-order",
+                                             "prefix-chain3", "prefix-chain3-wrong-order", "nest-cycle")),
+                f"every link-set relation class occurs ({relations})")
+    ctx.require(n.get("accepted_sets_3plus", 0) > 100, "link sets of three links with constrained order were accepted and parsed")
+    missing_null = {nk: sorted(need - null_winners.get(nk, set())) for nk in ("plain", "cls", "clsinit", "c2i")
+                    if need - null_winners.get(nk, set())}
+    ctx.require(not missing_null, "for every kind of None-admitting source each channel is seen to make None the final "
+                f"source value (missing: {missing_null})")
     ctx.require(all(spelled.get(c + ":rejected", 0) + spelled.get(c + ":not-rejected", 0) > 10
                     for c in ("canonical", "alias", "abbrev", "append", "negation")),
                 f"every class of spelling of a plain target's option was tried ({spelled})")
-    need = {"default", "env", "cfg", "argv", "obj", "str"}
     missing = {fam: sorted(need - w) for fam, w in winners.items() if need - w}
     ctx.require(not missing, f"every channel is seen to determine the final source value in every shape family (missing: {missing})")
